@@ -7,8 +7,8 @@
   element-type behaviour `c : Cfg` (what moved-from elements hold, which `call_reconstruct`
   overload applies), over every operation sequence and over every value.
 -/
-import Babylon.RVec.Lemmas4
-import Babylon.RVec.Str
+import Babylon.RVec.Lemmas6
+import Babylon.RVec.StrLemmas
 
 namespace Babylon.Properties.C12
 open Babylon.RVec Babylon.RVec.RVec Babylon.Gen.RVec Babylon.Core
@@ -219,6 +219,129 @@ theorem rvec_reuse_after_clear (c : Cfg) (s : RVec) (ops : List Op) (h : Inv s) 
   have := fits_noalloc c ops hc.inv hc.rep (by simpa [RVec.clear] using hf)
   exact ⟨this.2.1, this.1⟩
 
+
+/-! ### swap / copy / move between two objects, equal and different allocators -/
+
+/-- `world_refines_vectors`: two vector objects driven by any sequence of single-vector
+operations, `swap`, copy/move assignment, copy/move construction (with equal or different
+allocators) and re-construction always hold the contents of the abstract `std::vector` machine
+`AWorld` (destination of a copy or move = the source's elements; a source moved to a *different*
+allocator keeps its size with whatever its elements' move leaves, `Cfg.mvX`), both keep the
+representation invariant, and over both objects and all objects destroyed on the way there is no
+lifetime violation, nothing leaked, and constructions balance destructions plus the constructed
+cells the two objects still hold. -/
+theorem world_refines_vectors (c : Cfg) (ops : List World.WOp) :
+    let w := runOps (World.step c) ({} : World) ops
+    let aw := runOps (AWorld.step c) ({} : AWorld) ops
+    Inv w.a ∧ Inv w.b ∧ w.a.abs = aw.a.map some ∧ w.b.abs = aw.b.map some ∧
+      w.total.bad = 0 ∧ w.total.leaked = 0 ∧ w.total.ctor = w.total.dtor + w.a.cons + w.b.cons := by
+  have h := World.run_winv c ops World.winv_init
+  refine ⟨h.ia, h.ib, (rep_iff_abs h.ia _).mp h.xa, (rep_iff_abs h.ib _).mp h.xb, ?_, ?_, ?_⟩
+  · have := h.bad; simp [World.total]; omega
+  · have := h.leaked; simp [World.total]; omega
+  · have := h.bal; simp [World.total]; omega
+
+/-! ### `ReusableManager` -/
+
+/-- `mgr_accessor_valid`: an accessor (the index of a unit) issued at any time stays valid over
+every later sequence of `create_object` / use through accessors / `clear()` (logical clear or
+periodic re-creation) / `set_recreate_interval`: it still resolves, and the instance it
+resolves to — re-read through the unit on every access — is a well-formed vector with sound
+lifetime counters; instances destroyed by `release()` were destroyed completely. -/
+theorem mgr_accessor_valid (c : Cfg) (k : Nat) (pre post : List Mgr.MOp) (acc : Nat) :
+    let m0 := runOps (Mgr.step c) ({ interval := k } : Mgr) pre
+    let m := runOps (Mgr.step c) m0 post
+    acc < m0.units.length →
+      ∃ inst, m.get? acc = some inst ∧ Inv inst ∧ inst.g.bad = 0 ∧ inst.g.leaked = 0 ∧
+        inst.g.ctor = inst.g.dtor + inst.cons ∧
+        m.retired.bad = 0 ∧ m.retired.leaked = 0 ∧ m.retired.ctor = m.retired.dtor := by
+  intro m0 m hacc
+  have h0 : Mgr.MInv m0 := Mgr.run_minv c pre (Mgr.minv_init k)
+  have h : Mgr.MInv m := Mgr.run_minv c post h0
+  have hl : acc < m.units.length := Nat.lt_of_lt_of_le hacc (Mgr.run_length_le c post m0)
+  have hu := h.units m.units[acc] (List.getElem_mem hl)
+  exact ⟨m.units[acc].inst, by simp [Mgr.get?, List.getElem?_eq_getElem hl], hu.1, hu.2.bad, hu.2.leaked, hu.2.bal,
+    h.rbad, h.rleaked, h.rbal⟩
+
+/-- after `clear()` every unit is logically empty, whichever branch (clear / re-create) ran -/
+theorem mgr_clear_empties (m : Mgr) (acc : Nat) (u : MUnit) (hu : m.units[acc]? = some u) :
+    ∃ inst, m.clear.get? acc = some inst ∧ inst.size = 0 ∧ inst.abs = [] := by
+  have := Mgr.clear_unit hu
+  by_cases e : m.clearTimes + 1 ≥ m.interval
+  · rw [if_pos e] at this
+    have om := ofMeta_spec (u.inst.updateMeta u.md)
+    exact ⟨RVec.ofMeta (u.inst.updateMeta u.md), by simp [Mgr.get?, this], om.2.2.2.2.2.1,
+      by simp [RVec.abs, om.2.2.2.2.2.1]⟩
+  · rw [if_neg e] at this
+    exact ⟨u.inst.clear, by simp [Mgr.get?, this], rfl, by simp [RVec.clear, RVec.abs]⟩
+
+/-- re-creation records at least the largest size the workload reached: the new capacity
+`max constructed metadata` covers the peak of every workload run since the instance was empty -/
+theorem mgr_recreate_covers_peak (c : Cfg) (s : RVec) (W : List Op) (md : Nat) (h : Inv s) (hx : s.abs = []) :
+    RVec.peak [] W ≤ (RVec.ofMeta ((runOps (RVec.step c) s W).updateMeta md)).cap := by
+  have hp := RVec.peak_le_cons c W h ((rep_iff_abs h []).mpr (by simpa using hx))
+  have om := ofMeta_spec ((runOps (RVec.step c) s W).updateMeta md)
+  rw [om.2.2.2.1]
+  simp only [RVec.updateMeta]
+  omega
+
+/-- `manager_converges`: once a unit has been re-created with metadata that covers its workload
+(`Converged`: logically empty, capacity = constructed = metadata, `Fits metadata [] W`), then in
+every later business cycle — the workload `W` through the accessor followed by the manager's
+`clear()`, for every recreate cadence and whatever the other units do in between their own
+clears — (1) running the workload takes nothing from the resource for this vector and leaves
+its capacity alone, (2) the metadata does not move, (3) `clear()` hands back either the
+logically cleared instance or a re-created one of exactly the same capacity, and (4) the unit
+is converged again.  Hence over any number of cycles the only allocations are the single buffer
+of `metadata` elements per re-creation. -/
+theorem manager_converges (c : Cfg) (acc : Nat) (W : List Op) (m : Mgr) (n : Nat) (h : Mgr.Converged m acc W) :
+    let mn := Mgr.rounds c acc W n m
+    ∃ u u1 u2, mn.units[acc]? = some u ∧
+      (runOps (fun m o => m.on c acc o) mn W).units[acc]? = some u1 ∧
+      u1.inst.g.allocs = u.inst.g.allocs ∧ u1.inst.g.allocElems = u.inst.g.allocElems ∧
+      u1.inst.cap = u.inst.cap ∧ u1.md = u.md ∧
+      (Mgr.round c acc W mn).units[acc]? = some u2 ∧ u2.md = u.md ∧
+      (u2.inst = RVec.ofMeta u.md ∨ u2.inst = u1.inst.clear) ∧
+      Mgr.Converged (Mgr.round c acc W mn) acc W :=
+  Mgr.converged_round c (Mgr.converged_rounds c n h)
+
+/-- a freshly re-created unit is converged for every workload that fits in its metadata -/
+theorem manager_recreated_is_converged (m : Mgr) (acc : Nat) (u : MUnit) (W : List Op)
+    (hu : m.units[acc]? = some u) (hi : u.inst = RVec.ofMeta u.md) (hf : Fits u.md [] W) :
+    Mgr.Converged m acc W := by
+  have om := ofMeta_spec u.md
+  exact ⟨u, hu, by rw [hi]; exact om.1, by rw [hi]; exact om.2.1, by rw [hi]; exact om.2.2.2.1,
+    by rw [hi]; exact om.2.2.2.2.1, hf⟩
+
+/-! ### reusable string -/
+
+/-- contents follow `std::string`; no operation ever shrinks the capacity; `size ≤ capacity` -/
+theorem rstr_refines_string (s : RStr) (ops : List RStr.SOp) (h : RStr.Ok s) :
+    (runOps RStr.step s ops).chars = runOps RStr.listStep s.chars ops ∧
+      s.cap ≤ (runOps RStr.step s ops).cap ∧ RStr.Ok (runOps RStr.step s ops) :=
+  ⟨RStr.run_chars ops s, RStr.run_cap_le ops s, runOps_invariant RStr.step RStr.Ok (fun s o h => RStr.step_ok s o h) s h ops⟩
+
+/-- logical clear leaves a string equal to a freshly constructed one and keeps its capacity -/
+theorem rstr_clear_keeps_capacity (s : RStr) :
+    s.clear.chars = RStr.fresh.chars ∧ s.clear.cap = s.cap ∧ s.clear.allocs = s.allocs :=
+  ⟨rfl, rfl, rfl⟩
+
+/-- a workload whose sizes and reserve requests fit in the capacity allocates nothing -/
+theorem rstr_reuse_no_alloc (s : RStr) (ops : List RStr.SOp) (h : RStr.Ok s)
+    (hp : RStr.peak s.chars ops ≤ s.cap) (hr : RStr.maxReserve ops ≤ s.cap) :
+    (runOps RStr.step s ops).allocs = s.allocs ∧ (runOps RStr.step s ops).cap = s.cap := by
+  have := RStr.run_noalloc ops s h hp hr
+  exact ⟨this.1, this.2.2⟩
+
+/-- capacity metadata round trip: the re-created string has at least the recorded capacity, and
+`capacity → stable_reserve → capacity → …` is a fixed point after one step (no inflation) -/
+theorem rstr_meta_roundtrip (m : RStr.Meta) :
+    m ≤ (RStr.ofMeta m).cap ∧ (RStr.ofMeta m).chars = [] ∧
+      (RStr.ofMeta ((RStr.ofMeta m).updateMeta 0)).cap = (RStr.ofMeta m).cap := by
+  refine ⟨(RStr.ofMeta_cap_ge m).1, by simp [RStr.ofMeta, RStr.stableReserve, RStr.grow_chars, RStr.fresh], ?_⟩
+  have : (RStr.ofMeta m).updateMeta 0 = (RStr.ofMeta m).cap := by simp [RStr.updateMeta]
+  rw [this, RStr.ofMeta_stable]
+
 /-! ### non-vacuity -/
 
 /-- an element type with destructive moves (sources are left holding 999) and swap-like self move -/
@@ -235,6 +358,23 @@ example :
 
 /-- … the hypotheses of `rvec_reuse_no_alloc` are satisfiable by a non-trivial workload -/
 example : Fits 8 [] [.pushBack 1, .insertN 0 3 2, .resize 7 5, .reserve 8, .erase 1 4, .assignN 8 1] := by
+  simp [Fits, listStep, listApply, Op.pre, Op.request]
+
+/-- two objects on different resources: element-wise move, then a swap-based move back -/
+example :
+    let w := runOps (World.step exCfg) ({} : World)
+      [.on .A (.assignRange [1, 2, 3]), .new .B 1, .moveAssign .B, .on .B (.pushBack 4), .moveCtor .A 1]
+    (w.a.abs, w.b.abs, w.total.bad, w.total.leaked, w.total.ctor, w.total.dtor + w.a.cons + w.b.cons)
+      = ([some 1, some 2, some 3, some 4], [], 0, 0, 10, 10) := by decide
+
+/-- a manager that re-creates on every second clear; the unit converges to capacity 3 -/
+example :
+    let m := runOps (Mgr.step exCfg) ({ interval := 2 } : Mgr)
+      [.create, .on 0 (.pushBack 1), .on 0 (.pushBack 2), .on 0 (.pushBack 3), .clear, .on 0 (.pushBack 7), .clear]
+    (m.units.map (fun u => (u.gen, u.md, u.inst.size, u.inst.cons, u.inst.cap)), m.releases) = ([(1, 3, 0, 3, 3)], 1) ∧
+      Mgr.Converged m 0 [.pushBack 1, .pushBack 2, .insertN 0 1 5, .popBack] := by
+  refine ⟨by decide, ?_⟩
+  refine manager_recreated_is_converged _ 0 { inst := RVec.ofMeta 3, md := 3, gen := 1 } _ (by decide) rfl ?_
   simp [Fits, listStep, listApply, Op.pre, Op.request]
 
 end Babylon.Properties.C12
